@@ -42,7 +42,7 @@ VFILES = ["SelfCal/TrlModel.v", "SelfCal/TrlProofs.v", "SelfCal/TrlQI.v", "SelfC
           "SelfCal/DispatchModel.v", "SelfCal/DispatchProofs.v",
           "SelfCal/AutoKernelModel.v", "SelfCal/AutoKernelProofs.v", "SelfCal/AutoKernelQI.v",
           "SelfCal/AutoKernelQrQ.v", "SelfCal/AutoKernelProjector.v", "SelfCal/AutoKernelProjQI.v",
-          "SelfCal/AutoKernelDescent.v", "SelfCal/AutoKernelRun.v", "Properties_C02.v"]
+          "SelfCal/AutoKernelDescent.v", "SelfCal/AutoKernelRun.v", "SelfCal/AutoLoopMono.v", "Properties_C02.v"]
 
 RADIUS = 0.1            # stated radius of the guesses (relative to max(|truth|, 0.2))
 TOLS = [1e-4, 1e-6, 1e-8, 1e-10, 1e-12]
@@ -804,8 +804,13 @@ def part_dispatch(ctx, rec, wb, drv, reps):
         msg = s.get("msg", "")
         if "wb qr " in out or "not_enough_standards" in msg:
             path = "auto"           # (solve_auto's own pre-check fails before the first QR)
-        elif "wb qrsolve" in out or "wb mldivide" in out or "insufficient_number" in msg:
+        elif "wb qrsolve" in out or "wb mldivide" in out:
             path = "simple"
+        elif "insufficient_number" in msg:
+            # the per-system count test: since fix DD90 solve_auto makes it too (same report as the
+            # simple path), so without a solver tap the message alone decides the path only when
+            # there is no unknown / correlated parameter
+            path = "simple" if int(s["unk"]) + int(s["corr"]) == 0 else "auto-or-simple"
         elif "wb trlsolve" in out or "unknown_line_parameter" in msg or "unknown_reflect_parameter" in msg:
             path = "trl"
         else:
@@ -835,7 +840,7 @@ def part_dispatch(ctx, rec, wb, drv, reps):
     else:
         for want, (sc, r, path) in zip(mlines, cases):
             ctx.traces_validated += 1
-            if want != path:
+            if want != path and not (path == "auto-or-simple" and want in ("auto", "simple")):
                 ok = False
                 if not detail:
                     detail = "%s (%s): solver path %s, model %s; standards %s" % (sc.sid, sc.meta["variant"], path, want, sc.std_cells)
@@ -985,6 +990,10 @@ def run(ctx):
     ctx.log("sigma descriptions (two-point grid vs the same line sampled at every calibration frequency)")
     import c02_sigma
     c02_sigma.run_part(ctx, rec)
+    ctx.log("LM perturbed data / et_tolerance")
+    import c02_perturbed
+    c02_perturbed.part_perturbed(ctx, rec, exe, check_common, 8 if quick else 48)
+    c02_perturbed.part_et_tolerance(ctx, rec, exe, check_common, 6 if quick else 36)
     ctx.log("directed")
     part_directed(ctx, rec, exe)
     ctx.log("guard")
